@@ -91,7 +91,7 @@ def find_tlc_launcher():
     return shutil.which("tlc")
 
 
-def run_tlc_mc(name, module, cfg, workers=8, timeout=3600, coverage=True, extra=None, expect_actions=None):
+def run_tlc_mc(name, module, cfg, workers=8, timeout=3600, coverage=True, extra=None, expect_actions=None, simulate=None, seed=None):
     """Runs a model-checking configuration.  Returns a dict with states, distinct, depth, ok,
     violated invariant (if any), action coverage."""
     metadir = os.path.join(scratch_dir("tlc-" + name), "meta")
@@ -100,6 +100,11 @@ def run_tlc_mc(name, module, cfg, workers=8, timeout=3600, coverage=True, extra=
         args += ["-coverage", "1"]
     if extra:
         args += extra
+    if simulate:
+        # random behaviours beyond the exhaustive bound: simulate = (number of traces per worker, depth)
+        args += ["-simulate", "num=%d" % simulate[0], "-depth", str(simulate[1])]
+        if seed is not None:
+            args += ["-seed", str(seed)]
     args += ["-config", cfg, module]
     t0 = time.time()
     try:
@@ -119,6 +124,15 @@ def run_tlc_mc(name, module, cfg, workers=8, timeout=3600, coverage=True, extra=
     if m:
         info["depth"] = int(m.group(1))
     info["completed"] = "Model checking completed. No error has been found." in out
+    if simulate:
+        m = re.search(r"(\d+) states checked, (\d+) traces generated \(trace length: mean=(\d+)", out)
+        if m:
+            info["generated"] = int(m.group(1))
+            info["distinct"] = int(m.group(1))
+            info["traces"] = int(m.group(2))
+            info["mean_trace_length"] = int(m.group(3))
+        info["simulated"] = True
+        info["completed"] = ("Finished in" in out) and ("Error:" not in out)
     viol = re.search(r"Error: Invariant (\S+) is violated", out) or re.search(r"Error: Action property (\S+) is violated", out) \
         or re.search(r"Error: Temporal properties were violated", out)
     info["violated"] = viol.group(0) if viol else None
